@@ -645,3 +645,61 @@ def job_number_methods(job):
             out['samples'].append({'config': cfg, 'x_keys': list(ks)})
     out['distinct'] = len(pats)
     return out
+
+
+# ------------------------------------------------------------------ C13: one wrapper object shared by several algebras in one process
+def job_wrapper_twins(job):
+    """Users hand the same decorator (numba.njit, ...) to every algebra they build.  For each group of signatures with equal
+    (p, q, r) but different generator order, built one after the other in this process with ONE pass-through wrapper object:
+    every operator on fixed Fraction operands must return the element the algebra of the same signature without a wrapper returns
+    (they differ only in an option).  Deterministic; no oracle besides the unwrapped run of the same code."""
+    import functools
+    from kingdon import Algebra
+    from kingdon.multivector import MultiVector
+    out = {'evaluations': 0, 'failures': [], 'samples': [], 'configs': 0}
+
+    def passthrough(f):
+        @functools.wraps(f)
+        def inner(*a, **k):
+            return f(*a, **k)
+        return inner
+
+    def outcome(thunk):
+        try:
+            r = thunk()
+        except Exception as e:      # the same exception type from both algebras counts as equal behaviour
+            return ('raises', type(e).__name__)
+        if isinstance(r, MultiVector):
+            return ('value', {k: v for k, v in zip(r.keys(), r.values())})
+        return ('value', r)
+
+    binary = ['gp', 'ip', 'op', 'sp', 'lc', 'rc', 'cp', 'acp', 'add', 'sub', 'rp', 'sw', 'proj', 'div']
+    unary = ['reverse', 'involute', 'conjugate', 'normsq', 'inv', 'neg', 'hodge', 'unhodge']
+    for group in job['groups']:
+        for sig in group:
+            out['configs'] += 1
+            plain, wrapped = Algebra(signature=list(sig)), Algebra(signature=list(sig), wrapper=passthrough)
+            N = 2 ** plain.d
+            pats = [tuple(plain.indices_for_grades[(1,)]), tuple(range(N)), tuple(plain.indices_for_grades[(0, 2)] if plain.d >= 2 else (0,))]
+            for ai, ak in enumerate(pats):
+                for bk in pats[:2]:
+                    av = [F(2 + 3 * i + ai, 1 + (i % 3)) for i in range(len(ak))]
+                    bv = [F(5 + 2 * i, 2 + (i % 2)) for i in range(len(bk))]
+                    for name in binary + unary:
+                        res = []
+                        for alg in (plain, wrapped):
+                            a = MultiVector.fromkeysvalues(alg, ak, list(av))
+                            b = MultiVector.fromkeysvalues(alg, bk, list(bv))
+                            op = getattr(alg, name)
+                            res.append(outcome((lambda: op(a, b)) if name in binary else (lambda: op(a))))
+                        out['evaluations'] += 1
+                        if res[0] != res[1] and len(out['failures']) < 6:
+                            out['failures'].append({'what': 'an algebra with a pass-through wrapper (one wrapper object shared with the algebras built before it) '
+                                                            'returns another element than the same algebra without a wrapper',
+                                                    'signature': list(sig), 'built_before': [list(s) for s in group[:group.index(sig)]],
+                                                    'operator': name, 'a_keys': list(ak), 'b_keys': list(bk),
+                                                    'a_values': [str(x) for x in av], 'b_values': [str(x) for x in bv],
+                                                    'got': str(res[1])[:200], 'expected': str(res[0])[:200]})
+            if len(out['samples']) < 3:
+                out['samples'].append({'signature': list(sig)})
+    return out
